@@ -38,7 +38,7 @@ def run(kind, name, props):
     try:
         subprocess.check_call(["rsync", "-a", "--exclude", "*.so", "--exclude", "__pycache__", "--exclude", "build",
                                "/repo/src", "/repo/include", "/repo/setup.py", root + "/"])
-        p = subprocess.run(["patch", "-s", "-p1", "-d", root], stdin=open(patch), capture_output=True, text=True)
+        p = subprocess.run(["patch", "-s", "-p1", "-F3", "-d", root], stdin=open(patch), capture_output=True, text=True)
         if p.returncode != 0:
             out["applies"] = False
             return name, out
@@ -59,11 +59,25 @@ def run(kind, name, props):
 def main():
     outp, kind, props = sys.argv[1], sys.argv[2], sys.argv[3:]
     pat = r"^C\d\d[a-k]$" if kind == "seeded" else r"^C\d\d[p-v]$"
-    names = sorted(n for n in os.listdir(os.path.join(V, kind)) if re.match(pat, n))
+    names = sorted(n for n in os.listdir(os.path.join(V, kind)) if re.match(pat, n)
+                   and re.match(os.environ.get("TM_NAMES", ""), n))
     res = {}
+    if os.path.exists(outp):
+        res = json.load(open(outp))      # rows of an earlier (partial) run are kept
     with ThreadPoolExecutor(max_workers=int(os.environ.get("TM_WORKERS", "4"))) as ex:
         for name, r in ex.map(lambda n: run(kind, n, props), names):
+            if name in res and res[name].get("applies", True) and r["applies"]:
+                # merge with the earlier row: the properties re-run now replace their old result
+                old = res[name]
+                for prop in r["props"]:
+                    old["exit1"].pop(prop, None)
+                    old["exit2"].pop(prop, None)
+                old["exit1"].update(r["exit1"])
+                old["exit2"].update(r["exit2"])
+                old["props"] = sorted(set(old["props"]) | set(r["props"]))
+                r = old
             res[name] = r
+            json.dump(res, open(outp, "w"), indent=1, sort_keys=True)
             print(name, " ".join(r["props"]) or "-", "exit1=%s" % r["exit1"] if r["exit1"] else "",
                   "exit2=%s" % r["exit2"] if r["exit2"] else "", "" if r["applies"] else "NO-APPLY", flush=True)
     json.dump(res, open(outp, "w"), indent=1, sort_keys=True)
